@@ -62,7 +62,10 @@ class ForLoop:
         self.indexed_symbols = OrderedDict()
 
     def register_indexed_symbol(self, e, index_function, transpose, tree, index_expr=None):
-        if isinstance(index_expr, ca.MX) and index_expr is not self.index_variable:
+        if len(self.values) == 0:
+            # Empty range: nothing to map the index expression over
+            indices = self.values
+        elif isinstance(index_expr, ca.MX) and index_expr is not self.index_variable:
             F = ca.Function("index_expr", [self.index_variable], [index_expr])
             # expr = lambda ar: np.array([F(a)[0] for a in ar], dtype=int)
             Fmap = F.map("map", self.generator.map_mode, len(self.values), [], [])
